@@ -1193,3 +1193,17 @@ func isNilConst(v ssa.Value) bool {
 	c, ok := v.(*ssa.Const)
 	return ok && c.Value == nil
 }
+
+// ConstFloat returns the numeric value of a constant operand.
+func ConstFloat(v ssa.Value) (float64, bool) {
+	c, ok := v.(*ssa.Const)
+	if !ok || c.Value == nil {
+		return 0, false
+	}
+	switch c.Value.Kind() {
+	case constant.Int, constant.Float:
+		f, _ := constant.Float64Val(constant.ToFloat(c.Value))
+		return f, true
+	}
+	return 0, false
+}
